@@ -41,6 +41,19 @@ spec fn adv_col(col: int, t: Seq<char>) -> int
 {
     if t.len() == 0 { col } else { adv_col(if t[0] == '\n' { 0 } else { col + utf16_len(t[0]) }, t.skip(1)) }
 }
+/// first index >= i at which `u` occurs in `s`, or -1
+spec fn find_from(s: Seq<char>, u: Seq<char>, i: int) -> int
+    decreases s.len() - i,
+{
+    if i < 0 || i > s.len() { -1 } else if u.is_prefix_of(s.skip(i)) { i } else if i == s.len() { -1 } else { find_from(s, u, i + 1) }
+}
+proof fn lemma_find_from(s: Seq<char>, u: Seq<char>, i: int)
+    requires 0 <= i <= s.len(),
+    ensures find_from(s, u, i) == -1 || (i <= find_from(s, u, i) && find_from(s, u, i) + u.len() <= s.len()),
+    decreases s.len() - i,
+{
+    if !u.is_prefix_of(s.skip(i)) && i < s.len() { lemma_find_from(s, u, i + 1); }
+}
 spec fn pos_le(a: Position, b: Position) -> bool {
     a.line < b.line || (a.line == b.line && a.utf16_col <= b.utf16_col)
 }
@@ -174,6 +187,37 @@ impl<'s> ParseState<'s> {
             final(self).moved_to(old(self), skip_ws(old(self).src(), old(self).idx@)),
             r.is_some() == (skip_ws(old(self).src(), old(self).idx@) > old(self).idx@),
             r.is_some() ==> r.unwrap().start == old(self).pos() && r.unwrap().end == final(self).pos(),
+    { unimplemented!() }
+
+    /// whitespace and /* */ comments (proved in PSCORE)
+    #[verifier::external_body]
+    fn skip_whitespace_with_js_comments(&mut self) -> (r: Option<Range<Position>>)
+        requires old(self).wf(),
+        ensures
+            final(self).moved_to(old(self), skip_ws_js(old(self).src(), old(self).idx@)),
+            r.is_some() == (skip_ws_js(old(self).src(), old(self).idx@) > old(self).idx@),
+            r.is_some() ==> r.unwrap().start == old(self).pos() && r.unwrap().end == final(self).pos(),
+    { unimplemented!() }
+
+    /// up to (not including) the first occurrence of `until`, or to the end (proved in PSCORE)
+    #[verifier::external_body]
+    fn skip_until_before(&mut self, until: &str) -> (r: Option<&'s str>)
+        requires old(self).wf(),
+        ensures ({
+            let k = find_from(old(self).src(), until@, old(self).idx@);
+            &&& (k >= 0 ==> final(self).moved_to(old(self), k) && (r matches Some(x) && x@ == old(self).src().subrange(old(self).idx@, k)))
+            &&& (k < 0 ==> final(self).moved_to(old(self), old(self).src().len() as int) && r.is_none())
+        }),
+    { unimplemented!() }
+
+    #[verifier::external_body]
+    fn skip_until_after(&mut self, until: &str) -> (r: Option<&'s str>)
+        requires old(self).wf(),
+        ensures ({
+            let k = find_from(old(self).src(), until@, old(self).idx@);
+            &&& (k >= 0 ==> final(self).moved_to(old(self), k + until@.len()) && (r matches Some(x) && x@ == old(self).src().subrange(old(self).idx@, k)))
+            &&& (k < 0 ==> final(self).moved_to(old(self), old(self).src().len() as int) && r.is_none())
+        }),
     { unimplemented!() }
 
     /// runs `f` with automatic whitespace skipping switched off and restores the previous mode
